@@ -251,6 +251,18 @@ def c07_d(ctx: Ctx):
         else:
             out.append(ctx.viol(R, f, fl.ast, "float() can be applied before int() was tried on the raw token: large integer tokens are rounded through a double, so the CLI spelling "
                                 "selects different jobs than the mapping spelling", witness=cfg.describe_path(w)))
+    # a string filter is split at white space only - what a shell hands over after its own unquoting; a second round of quote / escape processing
+    # (shlex) strips the backslashes of regular-expression values
+    pf0 = ctx.fn("signac.filterparse:parse_filter")
+    lex = [c for c in body_nodes(pf0) if isinstance(c, ast.Call) and (common.ext_name(ctx, pf0, c) or "").startswith("shlex.")]
+    spl = [c for c in body_nodes(pf0) if isinstance(c, ast.Call) and isinstance(c.func, ast.Attribute) and c.func.attr == "split" and canon(c.func.value) == pf0.params[0]]
+    if lex:
+        out.append(ctx.viol(R, pf0, lex[0], f"the string form of a filter is tokenised with {canon(lex[0].func)}: backslashes and quotes inside values are consumed, so "
+                            "find_jobs(r'c /^\\d$/') evaluates the regular expression ^d$ - the string front end selects other jobs than the mapping and the command line", construct=pf0.qual + "|tokenise"))
+    elif spl and not spl[0].args and not spl[0].keywords:
+        out.append(ctx.ok(R, pf0, spl[0], "the string form of a filter is split at white space only", construct=pf0.qual + "|tokenise"))
+    else:
+        out.append(ctx.inc(R, pf0, pf0.node, "tokenisation of the string form not recognised", construct=pf0.qual + "|tokenise"))
     pf = ctx.fn("signac.filterparse:parse_filter")
     kinds = {canon(n.args[1]) for n in body_nodes(pf) if isinstance(n, ast.Call) and isinstance(n.func, ast.Name) and n.func.id == "isinstance" and len(n.args) == 2}
     if {"str", "Mapping"} <= kinds:
